@@ -289,6 +289,7 @@ class BalancingLearner(BaseLearner):
         index, x = x
         self._ask_cache.pop(index, None)
         self._loss.pop(index, None)
+        self._pending_loss.pop(index, None)
         self.learners[index].tell_pending(x)
 
     def _losses(self, real: bool = True) -> list[float]:
